@@ -426,7 +426,9 @@ impl RealLiteral {
         let (r, remainder): (Vec<_>, Vec<_>) = a
             .chars()
             .filter(|c| *c != '_')
-            .partition(|c| c.is_ascii_digit() || *c == '.' || *c == 'E' || *c == 'e' || *c == '-');
+            .partition(|c| {
+                c.is_ascii_digit() || *c == '.' || *c == 'E' || *c == 'e' || *c == '-' || *c == '+'
+            });
         if !remainder.is_empty() {
             return Err("Non-real characters");
         }
